@@ -645,6 +645,10 @@ func processPluginResponse(capabilitiesToVerify []pluginframework.Capability, re
 
 	// verify all extended critical attributes are processed by the plugin
 	for _, attr := range getNonPluginExtendedCriticalAttributes(&outcome.EnvelopeContent.SignerInfo) {
+		if !attr.Critical {
+			// a non-critical extended attribute does not have to be processed
+			continue
+		}
 		if !slices.ContainsAny(response.ProcessedAttributes, attr.Key) {
 			return fmt.Errorf("extended critical attribute %q was not processed by the verification plugin %q (all extended critical attributes must be processed by the verification plugin)", attr.Key, verificationPluginName)
 		}
